@@ -180,14 +180,38 @@ def reorder_events(before, after):
     return n
 
 
+def last_try(impl):
+    """the calls of the last (unfinished) sequence of a harness output, ending with the call that did not return"""
+    ops, pending = [], None
+    try:
+        with open(impl) as f:
+            for line in f:
+                line = line.rstrip("\n")
+                if line.startswith("seq "):
+                    ops, pending = [], None
+                elif line.startswith("try "):
+                    pending = line[4:]
+                elif line.startswith("op "):
+                    ops.append(line[3:]); pending = None
+    except OSError:
+        pass
+    return ops, pending
+
+
+def tmo(quick_s, thorough_s):
+    return quick_s if V.tier() == "quick" else thorough_s
+
+
 def run_t1(harness, driver, mode_args, work, tag, seed):
     """runs the harness (nodeio or ops) and the model replay; returns dict(stats), first mismatch or None"""
     work.mkdir(parents=True, exist_ok=True)
     impl, model = work / f"{tag}.impl.txt", work / f"{tag}.model.txt"
-    rc, out = V.run([harness] + mode_args + [str(impl)], timeout=3000, env={"VERIF_SEED": str(seed)})
+    rc, out = V.run([harness] + mode_args + [str(impl)], timeout=tmo(90, 900), env={"VERIF_SEED": str(seed)})
     crashed = None
     if rc != 0:
-        crashed = f"harness exit {rc}: {out[-600:]}"
+        ops, pending = last_try(impl)
+        crashed = dict(rc=rc, how=("did not return within the time limit (endless loop?)" if rc == 124 else f"harness exit {rc}"),
+                       output=out[-600:], ops_before=ops, call=pending)
     hist = {}
     m = re.search(r"^hist (.*)$", out, re.M)
     if m:
@@ -277,7 +301,7 @@ def run_t2(harness, driver, designs, work, seed, extra=1, nproc=None):
             return
         pf = work / f"designs{i}.txt"
         G.write_programs(pf, [d[0] for d in shards[i]])
-        rc, out = V.run([harness, "design", str(pf), str(work), "def,min", str(extra)], timeout=3000, env={"VERIF_SEED": str(seed)})
+        rc, out = V.run([harness, "design", str(pf), str(work), "def,min", str(extra)], timeout=tmo(90, 900), env={"VERIF_SEED": str(seed)})
         if rc != 0:
             crashed.append(dict(shard=i, rc=rc, out=out[-800:], designs=[d[0][0].split()[1] for d in shards[i]]))
     with concurrent.futures.ThreadPoolExecutor(max_workers=nproc) as ex:
@@ -315,6 +339,27 @@ def run_t2(harness, driver, designs, work, seed, extra=1, nproc=None):
                 elif l.startswith("ERROR"):
                     stats["errors"].append(l)
     return res, stats, crashed, files
+
+
+def unfinished(work, design_ids):
+    """(design, variant, last completed boundary) of the dump files of these designs that never reached their last dump"""
+    res = []
+    for d in design_ids:
+        for v in ("def", "min"):
+            f = work / f"{d}.{v}.wf"
+            if not f.exists():
+                continue
+            last, done = None, False
+            for line in open(f):
+                if line.startswith("dump "):
+                    last = line[5:].strip()
+                    done = "extra:optimizeSubnet-after-shuffle" in line
+                elif line.startswith("SKIP"):
+                    done = True
+            if not done:
+                res.append((f.stat().st_mtime, d, v, last))
+    res.sort()
+    return [(d, v, last) for _, d, v, last in res]
 
 
 def t2_activity(files):
@@ -508,7 +553,10 @@ def main():
             for a, b in st[key].items():
                 t1[key][a] = t1[key].get(a, 0) + b
         if crashed:
-            broken.append(f"T1 {name}: the harness crashed on real nodes ({crashed[:300]})")
+            broken.append(f"T1 {name}: call on real nodes {crashed['how']}: {crashed['call']}")
+            found.append(dict(property=CID, what="a call of the graph interface on real nodes " + crashed["how"],
+                              ops=crashed["ops_before"] + ([crashed["call"]] if crashed["call"] else []), call=crashed["call"],
+                              expected="every call returns and leaves a well-formed graph", observed=crashed["output"][-300:]))
         if mismatch:
             mismatch["run"] = name
             broken.append(f"T1 {name}: model and implementation differ after op #{len(mismatch.get('ops', []))} of seq {mismatch.get('seq')}")
@@ -531,7 +579,13 @@ def main():
     if designs:
         fails, t2, t2crashed, files = run_t2(harness, driver, designs, WORK / "t2", seed, extra=1)
     for c in t2crashed:
-        broken.append(f"T2: the harness crashed while building / post-processing designs {c['designs']} (rc={c['rc']}): {c['out'][-200:]}")
+        how = "did not return within the time limit (endless loop?)" if c["rc"] == 124 else f"crashed (exit {c['rc']})"
+        unf = unfinished(WORK / "t2", c["designs"])
+        broken.append(f"T2: construction / post-processing of a real design {how}; unfinished: {unf[:3]}")
+        for d, v, last in unf[:1]:
+            found.append(dict(property=CID, what="construction / post-processing of a real design " + how, design=d, variant=v,
+                              last_completed_boundary=last, program=prog.get(d, ([], []))[0], observed=c["out"][-300:],
+                              expected="every pass returns and leaves a well-formed graph"))
     if t2["errors"]:
         broken.append("T2: driver errors: " + "; ".join(t2["errors"][:3]))
     for l in fails[:50]:
@@ -593,8 +647,9 @@ def main():
             k += 1
             st, mm, crashed, impl = run_t1(harness, None, ["nodeio", "200", "150"], WORK / "search", f"s{k}", seed + 1000 * k)
             if crashed:
-                found.append(dict(property=CID, what="harness crashes on real nodes (out-of-bounds / use-after-free suspected)",
-                                  detail=crashed, rerun=f"VERIF_SEED={seed + 1000 * k} build/harness/C09_wf nodeio 200 150 out.txt"))
+                found.append(dict(property=CID, what="a call of the graph interface on real nodes " + crashed["how"],
+                                  ops=crashed["ops_before"] + ([crashed["call"]] if crashed["call"] else []), call=crashed["call"],
+                                  observed=crashed["output"][-300:]))
                 break
             for seq, ops, op, lines in blocks_t1(impl):
                 searched += 1
